@@ -205,11 +205,14 @@ cache_network_add_page		(cache_network *	cn,
 		}
 	}
 
-	if (0 == ps->subno_min /* none yet */
+	/* Sub-page number 0 is a valid number, not "none yet": the
+	   range starts over when this is the only cached subpage. */
+	if (1 == ps->n_subpages /* none before */
 	    || cp->subno < ps->subno_min)
 		ps->subno_min = cp->subno;
 
-	if (cp->subno > ps->subno_max)
+	if (1 == ps->n_subpages
+	    || cp->subno > ps->subno_max)
 		ps->subno_max = cp->subno;
 }
 
